@@ -35,6 +35,12 @@ Four bounded-exhaustive drivers on the REAL implementation:
     "DEAD is not followed by ALIVE without a higher incarnation" clause, and
     bystanders are never marked DEAD.
 
+(3b) ``updates`` (engine E3).  One real node, members b and x: ALL sequences of <= 3 (thorough 4) messages from
+    {ping/ack from b piggy-backing one update (alive|suspect|dead) x incarnation (0|1|2) about x, ping from x
+    announcing incarnation 0|1|2}, each delivered through the real handle_event.  Oracle: once x is reported
+    DEAD it is reported ALIVE again only after a strictly higher incarnation than the one of the DEAD report
+    was announced; the views agree.
+
 (4) ``phi`` (engine E3).  PhiAccrualDetector as a pure object: ALL heartbeat
     histories of <= 4 intervals over {0.5, 1, 2} x interval (x bootstrap
     interval yes/no x window size 2/200 x interval 0.5/1); ``phi(now)`` is
@@ -175,14 +181,16 @@ def run_cluster(chooser, cfg, fault=None, trace=None):
     """cfg = (N, interval_s, suspicion_s, phi).  fault = None | (victim_idx, crash_ns, restart_ns|None).
     Returns a dict with the per-pair view timeline and the oracle's findings."""
     N, I, S, PHI, rounds = cfg[:5]
-    fractions = tuple(cfg[5]) if len(cfg) > 5 else LAT_FRACTIONS
+    fractions = tuple(cfg[5]) if len(cfg) > 5 and cfg[5] is not None else LAT_FRACTIONS
+    ipc = cfg[6] if len(cfg) > 6 else None  # indirect_probe_count (None = library default)
     I_ns = int(round(I * SEC))
     holder = Holder()
     holder.chooser = chooser
     with owned_env(chooser):
         net = Network(name="net")
+        extra = {} if ipc is None else {"indirect_probe_count": int(ipc)}
         nodes = [MembershipProtocol(name=name_of(i), network=net, probe_interval=I,
-                                    suspicion_timeout=S, phi_threshold=PHI) for i in range(N)]
+                                    suspicion_timeout=S, phi_threshold=PHI, **extra) for i in range(N)]
         for a in nodes:
             for b in nodes:
                 if a is not b:
@@ -590,8 +598,33 @@ def phi_history_check(I, init, window, intervals, t0):
     n = 0
     vals = []
     # increasing grid: 1/8-interval steps up to +16 intervals, then 1/2-interval steps up to +64
-    grid = [t + k * step for k in range(0, 16 * 8 + 1)] + [t + 16 * I + k * (I / 2.0) for k in range(1, 96 + 1)]
+    grid = ([t + k * step for k in range(0, 16 * 8 + 1)] + [t + 16 * I + k * (I / 2.0) for k in range(1, 96 + 1)]
+            + [t + m * I for m in (100, 200, 1000, 10000)])  # far into the silence: erfc has underflowed, phi = inf
+    # every public reader of the suspicion level: phi(), is_available(), stats_at().current_phi / .is_suspected,
+    # stats (documented to carry no time-dependent level; read anyway)
+    prev_r = {}
+    susp = {}
+    hist = f"interval={I} bootstrap={init} window={window} heartbeats at t0={t0} then gaps {[m * I for m in intervals]}"
     for g in grid:
+        for thr, dd in ((8.0, det), (3.0, det3)):
+            for reader, get in (("stats_at", lambda d: d.stats_at(g)), ("stats", lambda d: d.stats)):
+                try:
+                    snap = get(dd)
+                    lvl, sus = snap.current_phi, snap.is_suspected
+                except AttributeError:
+                    continue
+                n += 1
+                k = (reader, thr)
+                if k in prev_r and (lvl != lvl or lvl < prev_r[k][1] - PHI_TOL):
+                    return n, vals, (f"PhiAccrualDetector/phi-decreased/{reader}-reader",
+                                     f"{hist}: {reader}.current_phi was {prev_r[k][1]!r} at {prev_r[k][0]} but is "
+                                     f"{lvl!r} at {g} with no heartbeat in between (phi() itself gives {dd.phi(g)!r})")
+                if susp.get(k) and not sus:
+                    return n, vals, (f"PhiAccrualDetector/suspected-cleared/{reader}-reader",
+                                     f"{hist}: {reader}.is_suspected (threshold {thr}) went back to False at {g} "
+                                     f"with no heartbeat in between (current_phi={lvl!r})")
+                prev_r[k] = (g, lvl)
+                susp[k] = bool(sus)
         p = det.phi(g)
         n += 1
         vals.append(p)
@@ -657,6 +690,130 @@ def run_phi(run, tier, seed):
 
 
 # ---------------------------------------------------------------------------
+# piggy-backed update table: every short sequence of gossip updates through the real handlers
+# ---------------------------------------------------------------------------
+UPD_STATES = ("alive", "suspect", "dead")
+UPD_INCS = (0, 1, 2)
+# ops: ("upd", carrier event type, state, incarnation)  gossip about x carried by a ping / ack from b
+#      ("hb", incarnation)                              a ping from x itself announcing that incarnation
+UPD_OPS = ([("upd", c, st, i) for c in ("MembershipPing", "MembershipAck") for st in UPD_STATES for i in UPD_INCS]
+           + [("hb", i) for i in UPD_INCS])
+
+
+def run_update_sequence(ops, trace=None):
+    """A real MembershipProtocol node ``a`` (members ``b`` and ``x``) receives the ops one after the other
+    through handle_event, each message built the way the library builds it (Network.send + the copy a
+    NetworkLink forwards).  After every op all public views of ``a`` about ``x`` are read.  Oracle (statement):
+    once x was reported DEAD, it is reported ALIVE again only after an incarnation strictly higher than the
+    one of the report that made it DEAD has been announced (an 'alive' update about x, or a message from x)."""
+    net = Network(name="net")
+    a, b, x = (MembershipProtocol(name=nm, network=net, probe_interval=1.0, suspicion_timeout=2.0) for nm in "abx")
+    for m in (a, b, x):
+        for o in (a, b, x):
+            if o is not m:
+                m.add_member(o)
+    Simulation(end_time=Instant(10 * SEC), entities=[net, a, b, x])  # injects the clock; never run
+    findings = []
+    dead_ref = None      # incarnation of the report that made x DEAD (None: not reported DEAD so far)
+    announced = None     # highest incarnation announced about x since then
+    views_log = []
+    prev = ("ALIVE", "ALIVE")
+    for j, op in enumerate(ops):
+        if op[0] == "upd":
+            _k, carrier, st, inc = op
+            payload = {"from": "b", "incarnation": 0, "updates": [{"member": "x", "state": st, "incarnation": inc}]}
+            if carrier == "MembershipAck":
+                payload["ack_for"] = "a"
+            sent = net.send(source=b, destination=a, event_type=carrier, payload=payload, daemon=True)
+            ann = inc if st == "alive" else None
+        else:
+            inc = op[1]
+            sent = net.send(source=x, destination=a, event_type="MembershipPing",
+                            payload={"from": "x", "incarnation": inc, "updates": []}, daemon=True)
+            ann = inc
+        ev = Event(time=a.now, event_type=sent.event_type, target=a, daemon=True, context=sent.context.copy())
+        a.handle_event(ev)
+        if ann is not None and dead_ref is not None:
+            announced = ann if announced is None else max(announced, ann)
+        st0 = a.get_member_state("x")
+        s0 = st0.name if st0 is not None else "ABSENT"
+        try:
+            al, su, de = list(a.alive_members), list(a.suspected_members), list(a.dead_members)
+            ls = "ALIVE" if "x" in al else "DEAD" if "x" in de else "SUSPECT" if "x" in su else "ABSENT"
+        except AttributeError:
+            ls = s0
+        views_log.append((op, s0, ls))
+        if trace is not None:
+            trace.append(f"op {j}: {op} -> get_member_state(x)={s0}, name lists say {ls}")
+        if ls != s0:
+            findings.append(("Membership/views-disagree/lists-vs-get_member_state",
+                             f"update table: after ops {list(ops[:j + 1])} get_member_state(x)={s0} but the name "
+                             f"lists say {ls}"))
+        for rep_state, was, how in ((s0, prev[0], "get_member_state"), (ls, prev[1], "alive_members")):
+            if rep_state == "ALIVE" and was != "ALIVE" and dead_ref is not None:
+                if announced is None or announced <= dead_ref:
+                    what = f"piggybacked-{op[2]}-update" if op[0] == "upd" else "message-from-the-member"
+                    findings.append((f"Membership/dead-then-alive-same-incarnation/{what}",
+                                     f"update table: node a reported x DEAD (report carried incarnation {dead_ref}); "
+                                     f"after ops {list(ops[:j + 1])} it reports x ALIVE again ({how}) although the "
+                                     f"highest incarnation announced since is {announced}"))
+                    break
+        if s0 == "DEAD" or ls == "DEAD":
+            if dead_ref is None:
+                dead_ref = op[3] if op[0] == "upd" else 0
+                announced = None
+        elif s0 == "ALIVE" and ls == "ALIVE" and dead_ref is not None and announced is not None and announced > dead_ref:
+            dead_ref, announced = None, None  # legitimately alive again at a higher incarnation
+        prev = (s0, ls)
+    return views_log, findings
+
+
+def _upd_job(job):
+    first_ops, depth = job
+    st = {"exec": 0, "trans": 0, "outcomes": set(), "nontriv": 0, "viol": {}, "samples": []}
+    for first in first_ops:
+        for L in range(0, depth):
+            for rest in itertools.product(UPD_OPS, repeat=L):
+                ops = (first,) + rest
+                log, f = run_update_sequence(ops)
+                st["exec"] += 1
+                st["trans"] += len(ops)
+                st["outcomes"].add(digest([(s0, ls) for (_o, s0, ls) in log]))
+                seen = [s0 for (_o, s0, _l) in log]
+                # non-trivial: x was reported DEAD and a later op tried to bring it back ('alive' gossip / own ping)
+                if "DEAD" in seen[:-1] and any(o[0] == "hb" or o[2] == "alive" for o in ops[seen.index("DEAD") + 1:]):
+                    st["nontriv"] += 1
+                for fp, desc in f:
+                    if fp not in st["viol"]:
+                        st["viol"][fp] = (desc, {"driver": "updates", "ops": [list(o) for o in ops]})
+                if len(st["samples"]) < 1 and len(ops) == 3 and "DEAD" in seen and seen[-1] == "ALIVE":
+                    st["samples"].append({"ops": ops, "views_after_each_op": [(s0, ls) for (_o, s0, ls) in log]})
+    st["outcomes"] = list(st["outcomes"])
+    return st
+
+
+def run_updates(run, tier, seed):
+    t0 = time.time()
+    depth = 3 if tier == "quick" else 4
+    d = run.driver("updates", {"node": "a (members b, x)", "ops": [list(o) for o in UPD_OPS],
+                               "max_sequence_length": depth,
+                               "delivery": "real handle_event, messages built by Network.send + link-style copy"})
+    jobs = [([op], depth) for op in UPD_OPS]
+    outcomes: set[str] = set()
+    for st in pmap(_upd_job, rotate(jobs, seed)):
+        d.executions += st["exec"]
+        d.transitions += st["trans"]
+        d.nontrivial += st["nontriv"]
+        outcomes.update(st["outcomes"])
+        for fp, (desc, rep) in st["viol"].items():
+            run.violation(fp, desc, rep)
+        if len(d.samples) < 2:
+            d.samples.extend(st["samples"])
+    d.states = d.outcomes = len(outcomes)
+    d.wall_s = time.time() - t0
+
+
+# ---------------------------------------------------------------------------
 # main
 # ---------------------------------------------------------------------------
 ALL_I = (0.5, 1.0)
@@ -665,10 +822,10 @@ ALL_P = (3.0, 8.0)
 
 
 def with_rounds_for_crash(cfg, fault):
-    N, I, S, P, _r = cfg
+    N, I, S, P, _r = cfg[:5]
     I_ns = int(round(I * SEC))
     rounds = -(-fault[1] // I_ns) + bound_rounds(N, I, S) + 2
-    return (N, I, S, P, rounds)
+    return (N, I, S, P, rounds) + tuple(cfg[5:])
 
 
 def crash_jobs(Ns_cfgs, kmax_of, bound, nparts):
@@ -776,15 +933,25 @@ def main(tier, seed, only=None):
         cf.append(("crash-n3-dev2", configs(3, I1, (2.0,), ALL_P), lambda N: 3, 2, 8))
         cf.append(("crash-n4", configs(4, ALL_I, ALL_S, ALL_P), lambda N: 2 * (N - 1) + 1, 1, 1))
         cf.append(("crash-n5", configs(5, I1, (2.0,), ALL_P), lambda N: 2 * (N - 1) + 1, 1, 2))
+    # few / no delegates for the indirect probe: 2-member cluster, indirect_probe_count 0 and 1 (default is 3);
+    # stop instants start at 1 us, i.e. before the first contact
+    def fewdel(sets):
+        return [(N, 1.0, S, 8.0, 3 * N, None, ipc) for (N, S, ipc) in sets]
+
+    fd_sets = [(2, 1.0, None), (2, 2.0, 0), (3, 1.0, 0), (3, 2.0, 1), (4, 2.0, 0)]
+    cf.append(("crash-fewdelegates", fewdel(fd_sets if quick else fd_sets + [(2, 5.0, 1), (3, 2.0, 0), (4, 2.0, 1)]),
+               lambda N: 2 if quick else 4, 1, 1))
     for name, cfgs, kmax_of, bound, nparts in cf:
         if not want(name):
             continue
         jobs = crash_jobs(cfgs, kmax_of, bound, nparts)
         run_family(run, name, "crash", jobs,
-                   {"cluster_size": cfgs[0][0], "parameter_sets(interval,suspicion,phi)": [c[1:4] for c in cfgs],
+                   {"cluster_sizes": sorted({c[0] for c in cfgs}),
+                    "parameter_sets(N,interval,suspicion,phi,indirect_probe_count)":
+                        [(c[0],) + tuple(c[1:4]) + ((c[6],) if len(c) > 6 else ("default",)) for c in cfgs],
                     "victim": "m0", "stop_instants": "k*interval + {-1us, +1us, +0.3*interval}, k=0..%d" % kmax_of(cfgs[0][0]),
                     "probe_rounds": "ceil(stop/interval) + BOUND + 2",
-                    "BOUND_rounds": {str(c[1:3]): bound_rounds(c[0], c[1], c[2]) for c in cfgs},
+                    "BOUND_rounds": {str((c[0],) + tuple(c[1:3])): bound_rounds(c[0], c[1], c[2]) for c in cfgs},
                     "one_way_delay_fraction_of_interval": LAT_FRACTIONS, "shuffle": "all permutations",
                     "deviation_bound": bound}, seed)
     # -- rejoin ---------------------------------------------------------
@@ -807,6 +974,8 @@ def main(tier, seed, only=None):
                     "victim": "m0", "stop_instants": REJOIN_STOPS_DOC,
                     "away_rounds": "2(N-1) + ceil(suspicion/interval) + 2.5",
                     "stop_list(k,off)": stops, "rounds_after_return": "N", "deviation_bound": bound}, seed)
+    if want("updates"):
+        run_updates(run, tier, seed)
     if want("phi"):
         run_phi(run, tier, seed)
     return run.finish()
@@ -817,6 +986,18 @@ def main(tier, seed, only=None):
 # ---------------------------------------------------------------------------
 def replay(data):
     rep = data["replay"]
+    if rep["driver"] == "updates":
+        trace = []
+        _log, f = run_update_sequence(tuple(tuple(o) for o in rep["ops"]), trace=trace)
+        print("node a (members b, x) receives, through handle_event:")
+        for line in trace:
+            print("  " + line)
+        want = data.get("fingerprint")
+        hit = False
+        for fp, desc in f:
+            print(f"  !! {fp}: {desc}")
+            hit = hit or want is None or fp == want
+        return 1 if hit else 0
     if rep["driver"] == "phi":
         n, vals, v = phi_history_check(rep["interval"], rep["bootstrap"], rep["window"],
                                        tuple(rep["gaps"]), rep["t0"])
@@ -829,7 +1010,8 @@ def replay(data):
         return 1 if v else 0
     cfg = tuple(rep["cfg"])
     cfg = (int(cfg[0]), float(cfg[1]), float(cfg[2]), float(cfg[3]), int(cfg[4])) + (
-        (tuple(float(x) for x in cfg[5]),) if len(cfg) > 5 else ())
+        ((tuple(float(x) for x in cfg[5]) if cfg[5] is not None else None),) if len(cfg) > 5 else ()) + (
+        (cfg[6],) if len(cfg) > 6 else ())
     fault = tuple(rep["fault"]) if rep.get("fault") else None
     trace = []
     ch = Chooser(prefix=rep["choices"])
